@@ -69,6 +69,7 @@ type Stack struct {
 	mu       sync.Mutex
 	bodies   map[string]string // sha -> label of the first event that carried this body
 	nRestore int
+	feReqIDs map[int][2]string // front-end request ordinal -> request id before / after sandbox.Invoke
 	intAgent map[string]string // internal agent name -> id
 	intGen   map[string]int    // internal agent name -> generation in which the id was issued
 	invMu    sync.Mutex
